@@ -30,6 +30,10 @@ def vf_jobs(tier):
     J.append(Job('raw-seek','vf/raw_seek.c',defs=['-DNPK=%d'%(3 if q else 4)],cuts={'vorbisfile.c':['_seek_helper','_get_next_page']},unwind=(3 if q else 4)*2+6,object_bits=12,
         witnesses=['not seekable','out of range','seek failed','last page, not first','first page is also the last','ordinary page'],models=ENV+['abstract single-page source, two ghost stream queues'],tags=['C07','C10','C03','C12'],
         functions=['ov_raw_seek','_decode_clear','ov_pcm_total'],bounds='2 links, the page found holds <=%d packets, no further page'%(3 if q else 4),weight=3))
+    for nm,d,wit in (('F-headers',[],['failed','failed after some pages','headers fetched']),('F-open1',['-DVIA_OPEN'],['open1 failed','open1 ok'])):
+        J.append(Job(nm,'vf/f_headers.c',defs=d+['-DENV_BUDGET=%d'%(6 if q else 8)],cuts={'vorbisfile.c':['_get_next_page']},unwind=(6 if q else 8)+3,unwindset=[('env_fill_page',None,28),('ogg_page_granulepos',None,10)],checks=['leak'],object_bits=12,
+            witnesses=wit,models=ENV,tags=['C03','C12','C13'],functions=['_fetch_headers','_add_serialno','_lookup_serialno']+(['_ov_open1','ov_clear'] if d else []),
+            bounds='<=%d page/packet events; vi/vc with arbitrary prior contents'%(6 if q else 8),weight=4,mem_est=4))
     for nm,d in (('F-prevserial',[]),('F-prevpage',['-DPLAIN'])):
         J.append(Job(nm,'vf/f_prevpage.c',defs=d,cuts={'vorbisfile.c':['_seek_helper','_get_next_page']},unwind=10,unwindset=[('env_fill_page',None,28)],object_bits=12,
             witnesses=['page found','error under persisting end of data'],models=ENV+['recurrence (lasso) check in the _seek_helper contract'],tags=['C03','C12'],
